@@ -355,6 +355,34 @@ theorem storeSpec_calls (E : Env) (s : Sys) (oid : Oid) (serial : Tid) (data : R
             simpa [committedOf] using this
           · cases hT : T.out <;> simp [Option.toList]
 
+
+/-- a store whose outcome is `resolvedStore`: the complete result -/
+theorem storeSpec_resolvedStore (E : Env) (s : Sys) (oid : Oid) (serial : Tid) (data : Record)
+    (ho : (storeSpec E s oid serial data).out = .resolvedStore) :
+    ∃ ct old committed m, currentTid s.view oid = some ct ∧ serial ≠ ct ∧ s.kind.resolves = true ∧
+      Invoked E (loadSerialK s.kind s.hist s.base) s.cache oid ct serial data none old committed ∧
+      E.resolver data.hdr.cls (loadState E.ci old.state) (loadState E.ci committed.state)
+        (loadState E.ci data.state) = .ok m := by
+  unfold storeSpec at ho
+  cases hc : currentTid s.view oid with
+  | none => rw [hc] at ho; simp [acceptRes] at ho
+  | some ct =>
+    rw [hc] at ho
+    simp only at ho
+    by_cases hne : serial = ct
+    · simp [hne, acceptRes] at ho
+    · simp only [hne, if_false] at ho
+      cases hk : s.kind.resolves with
+      | false => rw [hk] at ho; simp at ho
+      | true =>
+        rw [hk] at ho
+        simp only [if_true] at ho
+        cases ht : (tryToResolve E (loadSerialK s.kind s.hist s.base) s.cache oid ct serial data none).out with
+        | error e => rw [ht] at ho; simp at ho
+        | ok d =>
+          obtain ⟨old, committed, m, hinv, hres, _⟩ := (tryToResolve_ok_iff _ _ _ _ _ _ _ _ _).1 ht
+          exact ⟨ct, old, committed, m, rfl, hne, rfl, hinv, hres⟩
+
 /-! ### concrete runs are reachable (used by the non-vacuity examples) -/
 
 /-- every `begin` of the run draws a tid later than everything visible at that moment -/
